@@ -189,10 +189,8 @@ impl Mat2 {
     /// Panics if `slice` is less than 4 elements long.
     #[inline]
     pub fn write_cols_to_slice(self, slice: &mut [f32]) {
-        slice[0] = self.x_axis.x;
-        slice[1] = self.x_axis.y;
-        slice[2] = self.y_axis.x;
-        slice[3] = self.y_axis.y;
+        // the length is checked before anything is written
+        slice[..4].copy_from_slice(&self.to_cols_array());
     }
 
     /// Returns the matrix column for the given `index`.
